@@ -1,13 +1,17 @@
 #!/usr/bin/env python3
-"""Run every seeded change against its checks (quick tier) and print one line per (mutant, property)."""
+"""Run every seeded change (or the ids given on the command line) against its checks and print one line per
+(mutant, property). Quick tier, except for the changes listed in THOROUGH (they only show in the thorough tier)."""
 import json, os, subprocess, sys, re
 ROOT='/verif'
 # by default every change is run against the check of its own property (the directory name's prefix)
 CHECKS={}
+ONLY=set(sys.argv[1:])
+THOROUGH={'C13-6'}   # manifests only in builds without tag-prediction (thorough tier of C13)
 rows=[]
 for d in sorted(os.listdir(ROOT+'/seeded')):
     p=os.path.join(ROOT,'seeded',d,'patch.diff')
     if not os.path.exists(p): continue
+    if ONLY and d not in ONLY: continue
     prop=d.split('-')[0]
     if subprocess.run(['git','-C','/repo','diff','--quiet']).returncode!=0:
         print('repo dirty'); sys.exit(3)
@@ -17,7 +21,7 @@ for d in sorted(os.listdir(ROOT+'/seeded')):
         for pid in CHECKS.get(prop,[prop]):
             ev=ROOT+'/evidence/%s.json'%pid
             keep=open(ev,'rb').read() if os.path.exists(ev) else None   # evidence must stay the clean tree's
-            r=subprocess.run([ROOT+'/check',pid,'--tier','quick'],cwd=ROOT,stdout=subprocess.PIPE,stderr=subprocess.STDOUT)
+            r=subprocess.run([ROOT+'/check',pid,'--tier','thorough' if d in THOROUGH else 'quick'],cwd=ROOT,stdout=subprocess.PIPE,stderr=subprocess.STDOUT)
             if keep is not None: open(ev,'wb').write(keep)
             out=r.stdout.decode('utf-8','replace')
             kind='ok'
@@ -32,4 +36,4 @@ for d in sorted(os.listdir(ROOT+'/seeded')):
             print(rows[-1],flush=True)
     finally:
         subprocess.run(['git','-C','/repo','checkout','--','.'])
-json.dump(rows,open(ROOT+'/out/seeded_results.json','w'),indent=1)
+json.dump(rows,open(ROOT+'/out/seeded_results%s.json'%('_partial' if ONLY else ''),'w'),indent=1)
